@@ -308,6 +308,10 @@ func buildExternals() map[string]extFn {
 		ex.policy.boundIsViolation = true
 		return nil
 	}
+	m[zz+"StubJSONValues"] = func(ex *Exec, fr *frame, a []value) value {
+		ex.stubJSON = true
+		return nil
+	}
 	m[zz+"Opaque"] = func(ex *Exec, fr *frame, a []value) value {
 		_, ok := a[0].(*Opaque)
 		return ok
